@@ -314,6 +314,28 @@ def run(ctx):
                 except Exception:
                     rec['err'] = 'rejected-as-expected'
                 recs.append(rec)
+        # the library's own use of the two finders: GaussianKDE.percent_point(method='chandrupatla' | 'bisect')
+        from copulas.univariate import GaussianKDE
+        for i in range(3 if quick else 12):
+            X = np.concatenate([rs.normal(0, 1, 40), rs.normal(6, 2, 40)]) * 10.0 ** rs.uniform(-2, 2)
+            kde = GaussianKDE(bw_method=[None, 'silverman', 0.4][i % 3])
+            kde.fit(X)
+            q = np.concatenate([[1e-5, 1e-3], np.linspace(0.02, 0.98, 49), [1 - 1e-3, 1 - 1e-5]])
+            for meth in ('chandrupatla', 'bisect'):
+                rec = {'alg': 'kde-percent_point-' + meth, 'kind': 'kde', 'err': '', 'inside': True, 'accurate': True, 'exactzero': False,
+                       'n': len(q), 'lo': {'x': 0, 's': -1, 'm': 1}, 'hi': {'x': 1, 's': 1, 'm': 1}, 'evals': [], 'ret': -1}
+                try:
+                    x = np.asarray(kde.percent_point(q.copy(), method=meth), dtype=float)
+                    lo_, hi_ = kde._get_bounds()
+                    rec['inside'] = bool(np.all((x >= lo_) & (x <= hi_)))
+                    # within tolerance of the root of cdf(x) - q: judged through the residual and the local slope
+                    res = np.abs(np.asarray(kde.cumulative_distribution(x), dtype=float) - q)
+                    slope = np.maximum(np.asarray(kde.probability_density(x), dtype=float), 1e-300)
+                    tolx = 1e-8 if meth == 'bisect' else 1e-9 * (hi_ - lo_)
+                    rec['accurate'] = bool(np.all(res <= slope * tolx * 4 + 1e-12))
+                except Exception as ex:
+                    rec['err'] = 'raised-' + type(ex).__name__
+                recs.append(rec)
         tf = os.path.join(wd, 'lanes.json')
         T.dump_json(tf, [{k: r[k] for k in ('err', 'lo', 'hi', 'evals', 'ret', 'inside', 'accurate', 'exactzero')} for r in recs])
         r = T.run('Bracketing', cfgB % (1, 0) + 'INVARIANT TraceChecked\n', workers=1, env={'TRACE_FILE': tf}, timeout=1500)
